@@ -226,7 +226,13 @@ def check_import(cfg, crate, rep):
         bad_u = []
         n_u = 0
         for tv, tn, tf, tc in I2.tries:
-            if not any(c_.endswith("str::from_utf8") or c_.endswith("String::from_utf8") for c_ in calls_of(tv)):
+            # the `?` that is applied to the decoder's own result (through map_err / or / ok_or adaptors), wherever it is
+            # written (in the arm, in a helper) -- not a `?` on an aggregate that merely contains such a call
+            v_ = core(tv)
+            from interp import OKNESS_PRESERVING
+            while isinstance(v_, CallV) and v_.callee in OKNESS_PRESERVING and v_.args:
+                v_ = core(v_.args[0])
+            if not (isinstance(v_, CallV) and v_.callee.endswith(("str::from_utf8", "String::from_utf8"))):
                 continue
             n_u += 1
             ats_ = [a for a in F.atoms(tc) if a[0] == "eq" and "Tag::" in str(a[2])]
